@@ -101,7 +101,7 @@ func checkC17(c *Ctx) (int, error) {
 		c.ev.nontrivial(fmt.Sprintf("cold%d", i))
 	}
 	c.ev.Rule = fmt.Sprintf("every interleaving of the I/O steps of 2 instances x 4 steps (70) and 3 x 3 (1680) from TLC, enforced by gated destinations/sources, on random mixes of flate/gzip/zlib Writers (several streams per instance through Reset or new construction) and Readers (gzip with Latin-1 header fields) of all settings; cold-start cases whose first use of the library in the process is concurrent; plus %d free-running stress cases with 16-32 instances at GOMAXPROCS 1,2,4,16; half of all cases under the race detector; every instance's bytes and errors are compared with its solo run; distinct by (interleaving, instance mix)", nStress)
-	for _, cs := range raced[:minInt(2, len(raced))] {
+	for _, cs := range spread(raced) {
 		c.ev.sample(map[string]interface{}{"schedule": cs.(*CCase).Schedule, "instances": len(cs.(*CCase).Insts), "procs": cs.(*CCase).Procs})
 	}
 	var all []Viol
